@@ -328,8 +328,8 @@ def run_case(ctx, st, pt, p, heavy=True):
     ctx.sample({'text': text})
 
 
-def cfg(max_len):
-    return gp.GenCfg(min_len=1, max_len=max_len, letters=LETTERS, weights=dict(gp.W_SIMPLE), p_res=0.3,
+def cfg(max_len, letters=None):
+    return gp.GenCfg(min_len=1, max_len=max_len, letters=letters or LETTERS, weights=dict(gp.W_SIMPLE), p_res=0.3,
                      p_interval=0.45, p_charge=0.2, p_isotope=0.15, p_static=0.2, p_labile=0.2, p_unknown=0.15,
                      p_tag=0.03, p_alt=0.03, p_mult=0.1)
 
@@ -339,9 +339,14 @@ def run(ctx):
     pt = install(ctx, st)
     ctx.enable_disturb(pt, 0.01)     # other legitimate library calls interleaved between cases (vf.gen.disturb)
     small, big = cfg(9), cfg(25)
+    all26 = LETTERS + list('BJOUXZ')     # the ambiguous and rare letters too (mass invariance is skipped where mass() raises)
+    small26, big26 = cfg(9, all26), cfg(25, all26)
     for i in range(ctx.n(5000, 100000)):
         heavy = i % 4 != 0
-        p = gp.gen_pep(ctx.rng, small if heavy else big)
+        if i % 5 == 4:
+            p = gp.gen_pep(ctx.rng, small26 if heavy else big26)
+        else:
+            p = gp.gen_pep(ctx.rng, small if heavy else big)
         run_case(ctx, st, pt, p, heavy)
     # protein-sized annotations (257..320 residues: past the small-integer cache, past every block size a helper might
     # use): the same contracts judge a handful of slices, the split, a reverse and a shift
